@@ -289,6 +289,28 @@ def _errish(em, y, res, seen):
     return False
 
 
+def _has_status_channel(f, em):
+    """the function can tell its caller that it failed: it returns a negative constant somewhere, or hands on the
+    result of a call that can fail"""
+    for v in ret_values(f):
+        w = v
+        while w.is_inst and w.op in ("sext", "zext", "trunc"):
+            w = w.ops[0]
+        if w.is_const:
+            if w.is_int and w.sval < 0:
+                return True
+        elif w.is_inst and w.op == "call" and em.call_is_err(w):
+            return True
+        elif w.is_inst and w.op == "load":
+            q = w.ops[0]
+            while q.is_inst and q.op in ("getelementptr", "bitcast"):
+                q = q.ops[0]
+            if q.is_const and q.gname:
+                continue      # an entry of a global table (identifiers), not a status
+            return True       # a stored status (it->state): cannot be excluded
+    return False
+
+
 def rule_e6(chk, prog, em, tool, seen):
     """E6: on the edge where a result was found to be an error code (negative, or non-zero for 0/-errno functions) the
     function does not return a value that may be a regular answer -- a byte count, a 'partial success' -- without having
@@ -297,6 +319,8 @@ def rule_e6(chk, prog, em, tool, seen):
     for f in prog.functions():
         if f.ret not in ("i32", "i64") or f.name == "main":
             continue
+        if not _has_status_channel(f, em):
+            continue          # returns an identifier / a count with no way to say 'failed': E8 is the rule for those
         for c in f.calls():
             if not em.call_is_err(c):
                 continue
@@ -383,6 +407,286 @@ def alloc_sites(prog, f):
         n = norm_callee(c.callee)
         if n in ALLOC_EXT or n in ALLOC_PROJECT:
             yield c
+
+
+# E7: allocation sites whose failure is tolerated by design: (function, allocator) -> reason
+E7_EXCEPTIONS = {
+    ("istream_get_line", "realloc"): "shrink-to-fit of the finished line: when it fails the larger buffer is kept and "
+                                     "handed out, the result is the same",
+}
+
+
+def _e7_null_edges(prog, f, c):
+    aliases, _slots = alias_set(prog, f, c)
+    out = []
+    for a in aliases:
+        if a.op == "phi":
+            continue          # a phi mixes this allocation with earlier ones (list tails): not a test of this result
+        for u in f.uses.get(a, []):
+            if u.op == "icmp" and u.pred in ("eq", "ne"):
+                o = u.ops[1] if u.ops[0] is a else u.ops[0]
+                if not (o.is_const and o.is_null):
+                    continue
+                for br in f.uses.get(u, []):
+                    if br.op == "br" and len(br.x["succ"]) == 2:
+                        out.append((br, br.x["succ"][0] if u.pred == "eq" else br.x["succ"][1], aliases))
+    return out
+
+
+def _e7_zero_known(f, bb):
+    z = set()
+    for cond, outcome, br in f.guards_at(bb):
+        if cond.is_inst and cond.op == "icmp" and cond.ops[1].is_const and cond.ops[1].is_int and cond.ops[1].sval == 0:
+            if (cond.pred == "ne" and outcome is False) or (cond.pred == "eq" and outcome is True):
+                z.add(id(strip_casts(cond.ops[0])))
+    return z
+
+
+def _e7_walk(prog, f, br, succ, aliases, zero, neg=(), cap=3000):
+    """values returned along the acyclic paths that start with the edge br.bb -> succ.  Phis are resolved by the edge
+    taken, loads by the last store on the path; branches that test the failed pointer, a value known to be zero, or
+    the failed call's negative result are followed on the consistent side only."""
+    res = []
+    al = set(id(a) for a in aliases)
+    count = [0]
+    nz = None
+    if isinstance(neg, tuple) and len(neg) == 2 and neg[0] == "nz":
+        nz, neg = neg[1], ()
+
+    def resolve(v, path):
+        for _ in range(12):
+            while v.is_inst and v.op in ("sext", "zext", "trunc", "bitcast"):
+                v = v.ops[0]
+            if v.is_inst and v.op == "phi" and v.bb in path:
+                k = len(path) - 1 - path[::-1].index(v.bb)
+                if k == 0:
+                    return v
+                pred = path[k - 1]
+                nv = None
+                for val, p in zip(v.ops, v.x["inc"]):
+                    if p is pred:
+                        nv = val
+                if nv is None:
+                    return v
+                v = nv
+                continue
+            if v.is_inst and v.op == "load" and v.bb in path:
+                k = len(path) - 1 - path[::-1].index(v.bb)
+                found = None
+                for bi in range(k, -1, -1):
+                    b = path[bi]
+                    insts = b.insts[:v.pos] if (b is v.bb and bi == k) else b.insts
+                    for i in reversed(insts):
+                        if i.op == "store" and same_loc(prog, f, i.ops[1], v.ops[0]):
+                            found = i
+                            break
+                    if found:
+                        break
+                if found is None:
+                    return v
+                v = found.ops[0]
+                path = path[:bi + 1]
+                continue
+            return v
+        return v
+
+    def dfs(b, path):
+        if count[0] > cap:
+            return
+        count[0] += 1
+        path = path + [b]
+        t = b.term
+        if t.op == "ret":
+            if t.ops:
+                res.append((resolve(t.ops[0], path), t))
+            return
+        nxt = list(b.succs)
+        if t.op == "br" and len(t.x["succ"]) == 2:
+            c = t.ops[0]
+            if c.is_inst and c.op == "icmp" and c.ops[1].is_const:
+                x = resolve(c.ops[0], path) if c.ops[1].is_null else None
+                if x is not None and c.pred in ("eq", "ne") and (id(x) in al or id(c.ops[0]) in al):
+                    nxt = [t.x["succ"][0] if c.pred == "eq" else t.x["succ"][1]]
+                elif c.ops[1].is_int and c.ops[1].sval == 0:
+                    xr = resolve(c.ops[0], path)
+                    if nz and id(xr) == nz:
+                        if c.pred == "eq":
+                            nxt = [t.x["succ"][1]]
+                        elif c.pred == "ne":
+                            nxt = [t.x["succ"][0]]
+                    elif id(xr) in neg:
+                        if c.pred == "eq":
+                            nxt = [t.x["succ"][1]]
+                        elif c.pred == "ne":
+                            nxt = [t.x["succ"][0]]
+                        elif c.pred in ("slt", "sle"):
+                            nxt = [t.x["succ"][0]]
+                        elif c.pred in ("sgt", "sge"):
+                            nxt = [t.x["succ"][1]]
+                    elif id(xr) in zero or (xr.is_const and xr.is_int and xr.sval == 0):
+                        if c.pred == "eq":
+                            nxt = [t.x["succ"][0]]
+                        elif c.pred == "ne":
+                            nxt = [t.x["succ"][1]]
+                        elif c.pred in ("slt", "sgt"):
+                            nxt = [t.x["succ"][1]]
+        for s_ in nxt:
+            if s_ in path:
+                continue
+            dfs(s_, path)
+
+    dfs(succ, [br.bb])
+    return res
+
+
+def rule_e7(chk, prog, em, tool, seen):
+    """a failure does not come back as success: in a function of the 0 / negative-error convention, on the edge where
+    an allocation returned NULL (or a call that can fail returned a negative value) no path reaches a return whose
+    value is the constant 0 or a variable that the guards in front of the edge pin to 0 (the classic
+    'goto fail' with ret still 0)."""
+    n = 0
+    T = tristate_functions(prog, em)
+    for f in prog.functions():
+        if f not in em.err:
+            continue
+        sites = []
+        for c in alloc_sites(prog, f):
+            for (br, succ, aliases) in _e7_null_edges(prog, f, c):
+                sites.append((c, norm_callee(c.callee), br, succ, aliases, ()))
+        for c in f.calls():
+            if not em.call_is_err(c):
+                continue
+            for u in f.uses.get(c, []):
+                if u.op != "icmp" or not (u.ops[1].is_const and u.ops[1].is_int and u.ops[1].sval == 0):
+                    continue
+                for br in f.uses.get(u, []):
+                    if br.op != "br" or len(br.x["succ"]) != 2:
+                        continue
+                    succ = {"slt": br.x["succ"][0], "sge": br.x["succ"][1]}.get(u.pred)
+                    if succ is not None:
+                        sites.append((c, norm_callee(c.callee) or "indirect", br, succ, [], {id(c)}))
+                        continue
+                    # == 0 / != 0: a failure edge only if the callee has no regular positive answers
+                    ts, _ok = prog.call_targets(c)
+                    ts = [t for t in ts if not isinstance(t, ExternFn)]
+                    if not ts or any(t in T for t in ts) or slot_call(c):
+                        continue
+                    succ = {"ne": br.x["succ"][0], "eq": br.x["succ"][1]}.get(u.pred)
+                    if succ is not None:
+                        sites.append((c, norm_callee(c.callee) or "indirect", br, succ, [], ("nz", id(c))))
+        for (c, what, br, succ, aliases, neg) in sites:
+            key = (f.unit.src, f.name, c.line, c.col, br.line, br.col)
+            if key in seen:
+                continue
+            seen.add(key)
+            n += 1
+            chk.analysed(f)
+            inst = "%s:%s@%d" % (f.name, what, c.line)
+            zero = _e7_zero_known(f, br.bb) - {id(c)}
+            bad = None
+            for (v, r) in _e7_walk(prog, f, br, succ, aliases, zero, neg):
+                if (v.is_const and v.is_int and v.sval == 0) or id(v) in zero:
+                    bad = (v, r)
+                    break
+            if bad is None:
+                chk.ok("E7", inst, c, "no path from the failure edge returns 0", nontrivial=True)
+            elif (f.name, what) in E7_EXCEPTIONS:
+                chk.exception("E7", inst, c, E7_EXCEPTIONS[(f.name, what)])
+            else:
+                v, r = bad
+                chk.violation("E7", inst, br, "after %s() failed (line %d) a path reaches the return at %s:%d with %s: the "
+                              "failure is reported as success and the caller goes on with what was not produced" % (
+                                  what, c.line, r.file, r.line,
+                                  "the constant 0" if v.is_const else "a result that the guards in front of the failure "
+                                  "pin to 0 (the status variable was not set)"))
+    return n
+
+
+REPORTING = {"perror", "sqfs_perror", "fprintf", "fputs", "fputc", "fwrite", "vfprintf", "printf", "puts", "abort", "exit",
+             "_exit", "__assert_fail"}
+E8_EXCEPTIONS = {
+    ("compressor_print_available", "sqfs_compressor_create"):
+        "the --help listing of usable compressors: it prints, it does not pack; a compressor that cannot be created "
+        "right now is left out of the list",
+}
+
+
+def rule_e8(chk, prog, em, tool, seen):
+    """a failure is not taken for 'try the next one': where a call that can fail sits in a loop and its result is only
+    ever compared with zero, the failure edge does not lead round the loop to the next attempt without the error
+    leaving a trace (reported, stored, returned, or compared with a specific error code that tells 'not available'
+    apart from a fault)."""
+    n = 0
+    T = tristate_functions(prog, em)
+    for f in prog.functions():
+        if not f.loops:
+            continue
+        for c in f.calls():
+            if not em.call_is_err(c):
+                continue
+            ts, _ok = prog.call_targets(c)
+            ts = [t for t in ts if not isinstance(t, ExternFn)]
+            if not ts or any(t in T for t in ts) or slot_call(c):
+                continue
+            inloop = [(h, body) for (h, body) in f.loops if c.bb in body]
+            if not inloop:
+                continue
+            key = (f.unit.src, f.name, c.line, c.col)
+            if key in seen:
+                continue
+            seen.add(key)
+            carriers, work = {id(c): c}, [c]
+            while work:
+                v = work.pop()
+                for u in f.uses.get(v, []):
+                    if u.op in ("phi", "sext", "zext", "trunc", "select") and id(u) not in carriers:
+                        carriers[id(u)] = u
+                        work.append(u)
+            discriminated = False
+            for v in carriers.values():
+                for u in f.uses.get(v, []):
+                    if u.op == "icmp":
+                        o = u.ops[1] if u.ops[0] is v else u.ops[0]
+                        if not (o.is_const and o.is_int and o.sval == 0):
+                            discriminated = True
+                        elif u.pred in ("slt", "sgt", "sle", "sge"):
+                            discriminated = True
+                    elif u.op in ("ret", "store", "call", "switch"):
+                        discriminated = True
+            n += 1
+            chk.analysed(f)
+            callee = norm_callee(c.callee) or "indirect"
+            inst = "%s->%s" % (f.name, callee)
+            if discriminated:
+                chk.ok("E8", inst, c, "the result is told apart, handed on or stored", nontrivial=False)
+                continue
+            bad = None
+            for (succ, _fact) in failure_edges(f, c):
+                stack, vis = [succ], set()
+                while stack and bad is None:
+                    b = stack.pop()
+                    if b in vis:
+                        continue
+                    vis.add(b)
+                    if b is c.bb:
+                        bad = succ
+                        break
+                    if any(i.op == "ret" for i in b.insts):
+                        continue
+                    if any(i.op == "call" and norm_callee(i.callee) in REPORTING for i in b.insts):
+                        continue
+                    if any(i.op == "store" and i.ops[0].is_const and i.ops[0].is_int and i.ops[0].sval != 0 for i in b.insts):
+                        continue
+                    stack.extend(b.succs)
+            if bad is None:
+                chk.ok("E8", inst, c, "the failure edge does not lead back to the call without a report or a stored status")
+            elif (f.name, callee) in E8_EXCEPTIONS:
+                chk.exception("E8", inst, c, E8_EXCEPTIONS[(f.name, callee)])
+            else:
+                chk.violation("E8", inst, c, "when %s() fails the loop simply goes on to the next attempt: the result is only "
+                              "compared with 0, so a fault (out of memory, I/O error) is taken for 'not available' and "
+                              "the run succeeds with a different outcome than a fault-free run" % callee)
+    return n
 
 
 def rule_e3(chk, prog, tool, seen):
@@ -856,9 +1160,10 @@ def run(chk):
         "to) before it is dereferenced, and realloc never overwrites the only copy unchecked; packers: every exit after a "
         "successful sqfs_writer_init passes sqfs_writer_cleanup, EXIT_SUCCESS only from the success edge of "
         "sqfs_writer_finish, cleanup unlinks on failure; all four mains: exit status 0 unreachable from every failure "
-        "edge; submit failures propagate. Further rules: E4 (an error result obtained in a loop is examined before the next iteration replaces it), E5 (results of tri-state functions are not collapsed to ==0), E6 (an error edge does not return a regular value), init-unlinks and chdir-undone under K1-cleanup.")
+        "edge; submit failures propagate. Further rules: E4 (an error result obtained in a loop is examined before the next iteration replaces it), E5 (results of tri-state functions are not collapsed to ==0), E6 (an error edge does not return a regular value), E8 (a failing call in a loop whose result is only compared with 0 does not lead round the loop to the next attempt without a trace), E7 (no path from an allocation-failure edge or a negative-result edge returns 0 / a status variable pinned to 0: path enumeration with phis resolved by edge and loads by the last store), init-unlinks and chdir-undone under K1-cleanup.")
     chk.assumptions = ["that the handling of a consumed error is *right* is not decided, only that the error reaches a decision"]
     seen1, seen2, seen3, seen4, seen5, seen6, seen7 = set(), set(), set(), set(), set(), set(), set()
+    seen8, seen9 = set(), set()
     n1 = n3 = 0
     for tool in TOOLS:
         prog = load_program(tool)
@@ -868,6 +1173,8 @@ def run(chk):
         rule_e4(chk, prog, em, tool, seen5)
         rule_e5(chk, prog, em, tool, seen6)
         rule_e6(chk, prog, em, tool, seen7)
+        rule_e7(chk, prog, em, tool, seen8)
+        rule_e8(chk, prog, em, tool, seen9)
         n3 += rule_e3(chk, prog, tool, seen3)
         rule_cleanup(chk, prog, tool)
         if tool == "gensquashfs":
@@ -884,6 +1191,8 @@ def run(chk):
     chk.floor("E4", 60)
     chk.floor("E5", 15)
     chk.floor("E6", 20)
+    chk.floor("E7", 80)
+    chk.floor("E8", 20)
     chk.floor("K1-cleanup", 9)
     chk.floor("K1-status", 4)
     chk.floor("E1-submit", 1)
@@ -911,5 +1220,11 @@ def controls(chk):
     got = {(o["rule"], o["function"]) for o in sub.obl if o["verdict"] == "VIOLATED"}
     chk.control("E4", ("E4", "ctl_loop_overwrite") in got, "error result replaced by the next iteration's result")
     chk.control("E5", ("E5", "ctl_collapse") in got, "tri-state result compared with == 0 only")
-    chk.control("silent-on-good", not any(fn in ("ctl_good", "ctl_loop_checked", "ctl_no_collapse") for (_r, fn) in got),
+    rule_e7(sub, prog, em, "ctl", set())
+    got = {(o["rule"], o["function"]) for o in sub.obl if o["verdict"] == "VIOLATED"}
+    chk.control("E7", ("E7", "ctl_fail_zero") in got, "goto fail with the status variable still 0")
+    rule_e8(sub, prog, em, "ctl", set())
+    got = {(o["rule"], o["function"]) for o in sub.obl if o["verdict"] == "VIOLATED"}
+    chk.control("E8", ("E8", "ctl_try_next") in got, "failure taken for 'try the next candidate'")
+    chk.control("silent-on-good", not any(fn in ("ctl_good", "ctl_loop_checked", "ctl_no_collapse", "ctl_fail_set", "ctl_try_next_told") for (_r, fn) in got),
                 "correct functions must not be reported")
